@@ -83,6 +83,12 @@ class VariableTransformer:
         if np.isscalar(pub):
             pub = pub * np.ones((1, D))
 
+        # Work on floating-point arrays: the transform writes logs into them in
+        # place, which integer-typed bounds would truncate
+        lb, ub, plb, pub = (
+            np.asarray(b, dtype=float) for b in (lb, ub, plb, pub)
+        )
+
         # Save original vectors
         self.orig_ub = ub.copy()
         self.orig_lb = lb.copy()
